@@ -211,7 +211,8 @@ func shapes(tier int) []shape {
 	logFns := []string{"rate", "count_over_time", "bytes_rate", "bytes_over_time"}
 	uwFns := []string{"rate", "sum_over_time", "avg_over_time", "min_over_time", "max_over_time", "first_over_time",
 		"last_over_time"}
-	cmps := []*ref.Comparison{nil, {Op: ">", Val: 1, ValText: "1"}}
+	// (the grammar of comparison literals is Integer "."? Integer*: a negative threshold cannot be written)
+	cmps := []*ref.Comparison{nil, {Op: ">", Val: 1, ValText: "1"}, {Op: "<", Val: 0, ValText: "0"}}
 	if tier > 0 {
 		cmps = append(cmps, &ref.Comparison{Op: "==", Val: 0, ValText: "0"}, &ref.Comparison{Op: "<=", Val: 2.5, ValText: "2.5"})
 	}
@@ -224,7 +225,7 @@ func shapes(tier int) []shape {
 		for _, c := range cmps {
 			cn := "nocmp"
 			if c != nil {
-				cn = "cmp" + map[string]string{">": "gt", "==": "eq", "<=": "le"}[c.Op]
+				cn = "cmp" + map[string]string{">": "gt", "==": "eq", "<=": "le", "<": "lt"}[c.Op]
 			}
 			out = append(out, shape{name: pre + "/" + cn, rangeFn: fn, unwrap: uw, cmp: c})
 			if uw && c == nil {
@@ -393,6 +394,35 @@ func databases(family string, tier int) []database {
 		idAll = append(idAll, row{0, T0 + int64(i+1)*400_000_000, l})
 	}
 	out = append(out, mkDB("id_all", idAll, true))
+	// value family: the unwrapped label v ranges over negative, zero, positive and fractional numbers, in windows
+	// that are all-negative, all-zero, all-positive, mixed, and cancelling to 0 (bucket 0: two entries of stream 0
+	// and one of stream 1; bucket 1: one entry of stream 0) - a bucket array that starts at 0 must not let that 0
+	// take part in max/min/first/avg.
+	for _, vs := range []struct {
+		name string
+		v    [4]string
+	}{
+		{"val_neg", [4]string{"-2", "-3.5", "-1", "-4"}},
+		{"val_zero", [4]string{"0", "0", "0", "0"}},
+		{"val_pos", [4]string{"2", "3.5", "1", "0.25"}},
+		{"val_mixed", [4]string{"-2", "3", "0", "-0.5"}},
+		{"val_cancel", [4]string{"-2", "2", "-1.5", "1.5"}},
+	} {
+		ts := [4]int64{T0 + sec, T0 + 2*sec, T0 + 3*sec, T0 + 6*sec}
+		st := [4]int{0, 0, 1, 0}
+		var rows []row
+		for i := range vs.v {
+			line := fmt.Sprintf(`{"a":"1","b":"x","v":"%s"}`, vs.v[i])
+			if i == 1 {
+				line = fmt.Sprintf(`{"a":"1","b":"x","v":%s}`, vs.v[i]) // a JSON number
+			}
+			if family == "logfmt" {
+				line = fmt.Sprintf(`a=1 b=x v=%s`, vs.v[i])
+			}
+			rows = append(rows, row{st[i], ts[i], line})
+		}
+		out = append(out, mkDB(vs.name, rows, true))
+	}
 	// the big database: 3 series x 4 entries
 	var big []row
 	pool := jsonPool
